@@ -42,7 +42,13 @@ CORPUS = [
     "{{Param.Frame}} of {{Task.File}}", "{{a}}\n{{b}}", "{{a }}", "{{ a}}", "{{a. b}}", "{{a .b}}", "{ {a}}", "{{a} }",
 ]
 
-VALUES = ["X", "{{a}}", 5, "", "}}{{", "v.w", -3, "é {{ b }}", True, "{{", "}}", 0, "a", "{", "}"]
+class Label(str):
+    """a value that IS a string without being exactly `str` (what a FormatString field of a template, a path-like text
+    type or an enum member with a str base are)"""
+
+
+VALUES = ["X", "{{a}}", 5, "", "}}{{", "v.w", -3, "é {{ b }}", True, "{{", "}}", 0, "a", "{", "}",
+          Label("sub"), Label("{{a}}"), Label(""), FormatString("fs {{a}} lit"), 2.5]
 
 _NAME = r"[^\W\d]\w*"
 _DOTTED = re.compile(rf"{_NAME}(?:\s*\.\s*{_NAME})*")
